@@ -1,6 +1,7 @@
 from .runner import Property
 from .common import COMMON_TRUST
 from .fam_cert import CertFam
+from .fam_bytes import BytesFam
 
 CRYPTO_TRUST = [
     "symbolic (Dolev-Yao) signature model: EUF-CMA of ECDSA/Ed25519/BLS12-381 with proof of possession; BLS pairing check holds iff the summed atoms equal the expected sum; SHA-256 and ToBytes encodings injective",
@@ -8,7 +9,7 @@ CRYPTO_TRUST = [
 ]
 
 PROP = Property(
-    "C02", ["HsVerif.Props.C02"], [CertFam("c02")],
+    "C02", ["HsVerif.Props.C02"], [CertFam("c02"), BytesFam("c02")],
     facts=[
         # 28593c9: a failed pairing check is repeated in two equivalent arrangements (library Miller-loop defect)
         {"func": "security/crypto/bls12.go:bls12Base.coreVerify", "order": ["subgroupCheck", "HashToCurve", "pairingCheck"]},
